@@ -248,11 +248,11 @@ impl World for ScopedPrograms {
 pub fn run(tier: Tier, seed: u64, known: &KnownFindings) -> CheckReport {
     let b1 = run_batch(
         &Histories,
-        &BatchConfig { check_id: "C01", batch: "direct-histories", base_seed: seed, tier, runs: tier.pick(60_000, 4_000_000), threads: threads(), known, samples: 1 },
+        &BatchConfig { check_id: "C01", batch: "direct-histories", base_seed: seed, tier, runs: tier.pick(500_000, 6_000_000), threads: threads(), known, samples: 1 },
     );
     let b2 = run_batch(
         &ScopedPrograms,
-        &BatchConfig { check_id: "C01", batch: "scoped-programs", base_seed: seed, tier, runs: tier.pick(30_000, 1_500_000), threads: threads(), known, samples: 1 },
+        &BatchConfig { check_id: "C01", batch: "scoped-programs", base_seed: seed, tier, runs: tier.pick(250_000, 3_000_000), threads: threads(), known, samples: 1 },
     );
     CheckReport {
         property_id: "C01".into(),
